@@ -340,13 +340,20 @@ fn run(name: &PathBuf, debugger_opts: Option<debugger::Options>, minimal: bool) 
 fn write_object_file(path: &Path, bytes: &[u8]) -> Result<()> {
     // The file to replace is what the path finally names: follow symbolic links, so that the
     // link stays a link and its target keeps its contents if writing fails
-    let path = &fs::canonicalize(path).unwrap_or_else(|_| match fs::read_link(path) {
-        // A link to a file which does not exist yet: that file is the one to create
-        Ok(target) => match path.parent() {
-            Some(dir) => dir.join(target),
-            None => target,
-        },
-        Err(_) => path.to_path_buf(),
+    let path = &fs::canonicalize(path).unwrap_or_else(|_| {
+        // Links to a file which does not exist yet: that file is the one to create. Each
+        // relative target is relative to the directory of the link it was read from
+        let mut current = path.to_path_buf();
+        for _ in 0..40 {
+            let Ok(target) = fs::read_link(&current) else {
+                break;
+            };
+            current = match current.parent() {
+                Some(dir) => dir.join(target),
+                None => target,
+            };
+        }
+        current
     });
 
     // Anything but a regular file (device, pipe, ...) has no previous contents to preserve, and
